@@ -25,6 +25,7 @@ import operator
 import zlib
 from typing import Any, Callable, Dict, List, Optional, Tuple
 
+from . import env  # noqa: F401  (imports tawazi from $TAWAZI_SRC with the interposers installed)
 from . import sched
 from .sched import InjectedError, current_exec
 
@@ -172,6 +173,17 @@ def key_of(P: Dict[str, Any]) -> Dict[str, str]:
     """site -> the key under which the site shows up in traces (the site marker, or the function name
     for unmarked sites)."""
     return {st["site"]: (st["site"] if st.get("mark", True) else st["fn"]) for st in P["body"] if st["k"] == "call"}
+
+
+def all_calls(P: Dict[str, Any]) -> List[Tuple[Dict[str, Any], Dict[str, Any]]]:
+    """(statement, function spec) of every call site, nested DAGs included."""
+    out = []
+    for st in P["body"]:
+        if st["k"] == "call":
+            out.append((st, P["fns"][st["fn"]]))
+        elif st["k"] == "sub":
+            out.extend(all_calls(st["prog"]))
+    return out
 
 
 def sites_of(P: Dict[str, Any], deep: bool = True) -> List[str]:
